@@ -56,6 +56,7 @@ type Descriptor struct {
 	Timers         []string `json:"timers"`                     // time.After / AfterFunc / NewTimer / NewTicker / Tick: left on the real clock (their goroutines are foreign to the simulator)
 	PoolSites      int      `json:"pool_sites"`                 // x.Get() / x.Put(v) expressions behind the pool-miss fault
 	OnceWraps      int      `json:"once_wraps"`                 // x.Do(f) statements put behind a cooperative gate
+	ChanCoop       int      `json:"chan_coop"`                  // channel sends/receives rewritten to cooperative loops, and selects with a default clause left as they are (trees without go statements only)
 	WaitHints      int      `json:"wait_hints"`                 // runtime.Gosched() statements preceded by a "waiting" hint
 	Rewrite        bool     `json:"rewrite"`                    // lock rewriting was enabled for this copy
 	Verbatim       []string `json:"verbatim"`                   // files copied without instrumentation (unparsable, package main, not imported by the root package)
@@ -157,6 +158,7 @@ func RunOpts(srcDir, dstDir string, rewrite bool) (*Descriptor, error) {
 	parsed := map[string]*ast.File{}
 	srcs := map[string][]byte{}
 	clockSeam := true
+	treeHasGo := false // a tree that starts goroutines of its own keeps its channel operations (and stays operation-granular)
 	clockScales := map[int64]bool{}         // durations (ns) that appear in the tree as N * time.Unit or time.Unit
 	pkgVars := map[string]map[string]bool{} // dir -> names
 	pkgMut := map[string]map[string]bool{}  // dir -> names of package-level variables that are not error sentinels
@@ -176,6 +178,12 @@ func RunOpts(srcDir, dstDir string, rewrite bool) (*Descriptor, error) {
 		}
 		parsed[rel] = f
 		srcs[rel] = src
+		ast.Inspect(f, func(n ast.Node) bool {
+			if _, ok := n.(*ast.GoStmt); ok {
+				treeHasGo = true
+			}
+			return true
+		})
 		dir := filepath.Dir(rel)
 		if pkgVars[dir] == nil {
 			pkgVars[dir] = map[string]bool{}
@@ -320,6 +328,29 @@ func RunOpts(srcDir, dstDir string, rewrite bool) (*Descriptor, error) {
 			}
 		}
 
+		// The channel rewrite: in a tree without go statements every party of a channel operation is a task of
+		// the simulator, so `ch <- v` and `<-ch` outside select become loops around a non-blocking select that
+		// yield to the scheduler while the operation cannot proceed (a task descheduled with the buffer in its
+		// hand cannot deadlock the simulation), and a select with a default clause cannot block at all.
+		chanRewrite := rewrite && !treeHasGo
+		chanSkip := map[ast.Node]bool{} // communication statements of select clauses: left as they are
+		chanTwo := map[ast.Node]bool{}  // receives in a two-value context (v, ok := <-ch)
+		unparen := func(e ast.Expr) ast.Expr {
+			for {
+				p, ok := e.(*ast.ParenExpr)
+				if !ok {
+					return e
+				}
+				e = p.X
+			}
+		}
+		markTwo := func(nl int, rhs []ast.Expr) {
+			if nl == 2 && len(rhs) == 1 {
+				if u, ok := unparen(rhs[0]).(*ast.UnaryExpr); ok && u.Op == token.ARROW {
+					chanTwo[u] = true
+				}
+			}
+		}
 		var curFunc string
 		var visitBlock func(list []ast.Stmt, first bool)
 		addSite := func(st ast.Stmt, first bool) {
@@ -334,6 +365,14 @@ func RunOpts(srcDir, dstDir string, rewrite bool) (*Descriptor, error) {
 					s.Global = true
 					if pkgMut[dir][idn.Name] {
 						s.Hot = true
+					}
+				}
+				switch cn := n.(type) {
+				case *ast.SendStmt, *ast.SelectStmt:
+					s.Global, s.Hot = true, true // a channel operation is a synchronisation like a lock or an atomic
+				case *ast.UnaryExpr:
+					if cn.Op == token.ARROW {
+						s.Global, s.Hot = true, true
 					}
 				}
 				if sel, ok := n.(*ast.SelectorExpr); ok && syncishSelector[sel.Sel.Name] {
@@ -493,20 +532,71 @@ func RunOpts(srcDir, dstDir string, rewrite bool) (*Descriptor, error) {
 			case *ast.GoStmt:
 				d.GoStmts++
 				d.BlockingSync = append(d.BlockingSync, fmt.Sprintf("%s:%d go statement", rel, tf.Line(x.Pos())))
+			case *ast.AssignStmt:
+				markTwo(len(x.Lhs), x.Rhs)
+			case *ast.ValueSpec:
+				markTwo(len(x.Names), x.Values)
 			case *ast.SelectStmt:
 				d.ChanOps++
-				d.BlockingSync = append(d.BlockingSync, fmt.Sprintf("%s:%d select", rel, tf.Line(x.Pos())))
+				hasDefault := false
+				for _, c := range x.Body.List {
+					cc, ok := c.(*ast.CommClause)
+					if !ok {
+						continue
+					}
+					switch cs := cc.Comm.(type) {
+					case nil:
+						hasDefault = true
+					case *ast.SendStmt:
+						chanSkip[cs] = true
+					case *ast.ExprStmt:
+						chanSkip[unparen(cs.X)] = true
+					case *ast.AssignStmt:
+						if len(cs.Rhs) == 1 {
+							chanSkip[unparen(cs.Rhs[0])] = true
+						}
+					}
+				}
+				if chanRewrite && hasDefault {
+					d.ChanCoop++
+				} else {
+					d.BlockingSync = append(d.BlockingSync, fmt.Sprintf("%s:%d select", rel, tf.Line(x.Pos())))
+				}
 			case *ast.SendStmt:
 				d.ChanOps++
-				d.BlockingSync = append(d.BlockingSync, fmt.Sprintf("%s:%d channel send", rel, tf.Line(x.Pos())))
+				switch {
+				case chanSkip[x]:
+					// part of a select, which has been judged as a whole
+				case chanRewrite:
+					ins = append(ins, insertion{off: tf.Offset(x.Pos()), text: "zzSimhook.CoopSendTo("},
+						insertion{off: tf.Offset(x.Arrow), text: ")(", del: 2}, // (v is then assigned to T like in a send: no inference from v)
+						insertion{off: tf.Offset(x.End()), text: ")"})
+					d.ChanCoop++
+				default:
+					d.BlockingSync = append(d.BlockingSync, fmt.Sprintf("%s:%d channel send", rel, tf.Line(x.Pos())))
+				}
 			case *ast.UnaryExpr:
 				if x.Op == token.ARROW {
 					d.ChanOps++
-					d.BlockingSync = append(d.BlockingSync, fmt.Sprintf("%s:%d channel receive", rel, tf.Line(x.Pos())))
+					switch {
+					case chanSkip[x]:
+					case chanRewrite:
+						fn := "zzSimhook.CoopRecv("
+						if chanTwo[x] {
+							fn = "zzSimhook.CoopRecv2("
+						}
+						ins = append(ins, insertion{off: tf.Offset(x.Pos()), text: fn, del: 2},
+							insertion{off: tf.Offset(x.End()), text: ")"})
+						d.ChanCoop++
+					default:
+						d.BlockingSync = append(d.BlockingSync, fmt.Sprintf("%s:%d channel receive", rel, tf.Line(x.Pos())))
+					}
 				}
 			case *ast.ChanType:
 				d.ChanOps++
-				d.BlockingSync = append(d.BlockingSync, fmt.Sprintf("%s:%d channel type", rel, tf.Line(x.Pos())))
+				if !chanRewrite {
+					d.BlockingSync = append(d.BlockingSync, fmt.Sprintf("%s:%d channel type", rel, tf.Line(x.Pos())))
+				}
 			case *ast.SelectorExpr:
 				if id, ok := x.X.(*ast.Ident); ok && timeName != "" && id.Name == timeName && id.Obj == nil {
 					switch x.Sel.Name {
@@ -585,6 +675,7 @@ func RunOpts(srcDir, dstDir string, rewrite bool) (*Descriptor, error) {
 	hb.WriteString("var Hook func(site int)\n\n")
 	hb.WriteString("// Yield is the generated call target.\n")
 	hb.WriteString("func Yield(site int) {\n\tif Hook != nil {\n\t\tHook(site)\n\t}\n}\n\n")
+	hb.WriteString(hookChanSrc)
 	hb.WriteString("// Blocked is called from a rewritten Lock loop: the lock is held by a descheduled task.\n")
 	hb.WriteString("func Blocked() {\n\tif Hook != nil {\n\t\tHook(-2)\n\t}\n}\n\n")
 	hb.WriteString("// Waiting is called before a runtime.Gosched() of the instrumented module (a hand-written wait loop).\n")
@@ -593,7 +684,7 @@ func RunOpts(srcDir, dstDir string, rewrite bool) (*Descriptor, error) {
 	hb.WriteString("// CurTask is the simulated task that holds the token (maintained by the harness).\nvar CurTask int\n\n")
 	hb.WriteString("// Enter tries to pass the gate of a wrapped x.Do(f) statement.  Exactly one simulated task runs at a time,\n// so plain variables are enough; outside a simulation the gate is always open.  The gate is re-entrant for\n// the task that holds it (f may reach the same statement again: recursion, or a method that is merely called Do).\n//\n//go:norace\nfunc Enter(id int) bool {\n\tif Hook == nil || !Active || (IsTask != nil && !IsTask()) {\n\t\treturn true\n\t}\n\tfree := -1\n\tfor i := range gates {\n\t\tif gates[i].depth > 0 && gates[i].id == id {\n\t\t\tif gates[i].owner == CurTask {\n\t\t\t\tgates[i].depth++\n\t\t\t\treturn true\n\t\t\t}\n\t\t\treturn false\n\t\t}\n\t\tif gates[i].depth == 0 && free < 0 {\n\t\t\tfree = i\n\t\t}\n\t}\n\tif free >= 0 {\n\t\tgates[free].id, gates[free].owner, gates[free].depth = id, CurTask, 1\n\t}\n\treturn true\n}\n\n")
 	hb.WriteString("// Leave undoes one Enter.\n//\n//go:norace\nfunc Leave(id int) {\n\tif Hook == nil || !Active || (IsTask != nil && !IsTask()) {\n\t\treturn\n\t}\n\tfor i := range gates {\n\t\tif gates[i].depth > 0 && gates[i].id == id && gates[i].owner == CurTask {\n\t\t\tgates[i].depth--\n\t\t\treturn\n\t\t}\n\t}\n}\n\n")
-	hb.WriteString("// ResetGates opens every gate (called by the harness between runs).\n//\n//go:norace\nfunc ResetGates() {\n\tfor i := range gates {\n\t\tgates[i].depth = 0\n\t}\n}\n\n")
+	hb.WriteString("// ResetGates opens every gate (called by the harness between runs).\n//\n//go:norace\nfunc ResetGates() {\n\tfor i := range gates {\n\t\tgates[i].depth = 0\n\t}\n\tfor i := range wrPend {\n\t\twrPend[i].m, wrPend[i].n = nil, 0\n\t}\n}\n\n")
 	hb.WriteString("// Active is set by the harness around the concurrent phase of a run.\nvar Active bool\n\n// NoPreempt is kept for compatibility (always 0).\nvar NoPreempt int\n\n")
 	hb.WriteString("// SiteInfo describes one yield site.\ntype SiteInfo struct {\n\tFile string\n\tLine int\n\tFunc string\n\tFuncFirst bool\n\tGlobal bool\n\tHot bool\n}\n\n")
 	fmt.Fprintf(&hb, "// OwnLockTypes: types of the module that declare Lock / RLock / TryLock methods themselves.\nvar OwnLockTypes = %#v\n\n", append([]string{}, d.OwnLockTypes...))
@@ -630,10 +721,68 @@ func CoopLock(p interface{}, read bool) bool {
 	if try == nil {
 		return false
 	}
+	if m := rwOf(p); m != nil && Hook != nil && Active && (IsTask == nil || IsTask()) {
+		// sync.RWMutex: "a blocked Lock call excludes new readers from acquiring the lock".  TryLock does not
+		// announce a waiting writer, so the simulator keeps that book itself: a recursive read lock taken while
+		// another task waits for the write lock blocks here as it does in production.
+		if read {
+			for wrPending(m, 0) > 0 || !try() {
+				Blocked()
+			}
+		} else if !try() {
+			wrPending(m, 1)
+			for !try() {
+				Blocked()
+			}
+			wrPending(m, -1)
+		}
+		return true
+	}
 	for !try() {
 		Blocked()
 	}
 	return true
+}
+
+func rwOf(p interface{}) *sync.RWMutex {
+	switch v := p.(type) {
+	case *sync.RWMutex:
+		return v
+	case **sync.RWMutex:
+		return *v
+	}
+	return nil
+}
+
+var wrPend [32]struct {
+	m *sync.RWMutex
+	n int
+}
+
+// wrPending adds delta to the number of tasks waiting for the write lock of m and returns it (one task runs at a
+// time: plain memory, invisible to the race detector, so the book-keeping orders nobody).
+//
+//go:norace
+func wrPending(m *sync.RWMutex, delta int) int {
+	free := -1
+	for i := range wrPend {
+		if wrPend[i].m == m {
+			wrPend[i].n += delta
+			n := wrPend[i].n
+			if n <= 0 {
+				wrPend[i].m, wrPend[i].n = nil, 0
+			}
+			return n
+		}
+		if wrPend[i].m == nil && free < 0 {
+			free = i
+		}
+	}
+	if delta > 0 && free >= 0 {
+		wrPend[free].m, wrPend[free].n = m, delta
+		return delta
+	}
+	return 0
 }
 
 func tryFunc(p interface{}, read bool) func() bool {
@@ -1052,3 +1201,55 @@ func writeFile(dst string, b []byte) error {
 	}
 	return os.WriteFile(dst, b, 0o644)
 }
+
+// hookChanSrc: cooperative channel operations (trees without go statements: every other party is a task).
+const hookChanSrc = `// CoopSendTo(ch)(v) is ch <- v for a task of the simulator: while the send cannot proceed another task runs.
+func CoopSendTo[T any](ch chan<- T) func(T) {
+	return func(v T) {
+		if Hook == nil {
+			ch <- v
+			return
+		}
+		for {
+			select {
+			case ch <- v:
+				return
+			default:
+				Blocked()
+			}
+		}
+	}
+}
+
+// CoopRecv is <-ch for a task of the simulator.
+func CoopRecv[T any](ch <-chan T) T {
+	if Hook == nil {
+		return <-ch
+	}
+	for {
+		select {
+		case v := <-ch:
+			return v
+		default:
+			Blocked()
+		}
+	}
+}
+
+// CoopRecv2 is v, ok := <-ch for a task of the simulator.
+func CoopRecv2[T any](ch <-chan T) (T, bool) {
+	if Hook == nil {
+		v, ok := <-ch
+		return v, ok
+	}
+	for {
+		select {
+		case v, ok := <-ch:
+			return v, ok
+		default:
+			Blocked()
+		}
+	}
+}
+
+`
